@@ -145,6 +145,27 @@ func OCSPSelfTest() error {
 			return fmt.Errorf("ocsp pool: responder certificate verifies under the twin CA")
 		}
 	}
+	// look-alikes: copied fields are copied, the key is the attacker's, and only
+	// the control is vouched for by the target's key
+	for i, by := range []string{"self", "ca", "issuer"} {
+		f, err := pool.Forge(OCSPForgeSpec{Target: 1, Copy: OCSPCopySubject | OCSPCopySKID | OCSPCopyAKID, By: by, ByCA: 2, Key: pool.AttackerKeys()[i].ID})
+		if err != nil {
+			return err
+		}
+		t := pool.CAs[1].Cert
+		if !bytes.Equal(f.Cert.RawSubject, t.RawSubject) || !bytes.Equal(f.Cert.SubjectKeyId, t.SubjectKeyId) || len(t.SubjectKeyId) == 0 || !bytes.Equal(f.Cert.AuthorityKeyId, t.SubjectKeyId) {
+			return fmt.Errorf("ocsp forge (%s): fields not copied", by)
+		}
+		if bytes.Equal(f.Cert.RawSubjectPublicKeyInfo, t.RawSubjectPublicKeyInfo) {
+			return fmt.Errorf("ocsp forge (%s): look-alike carries the target's key", by)
+		}
+		if !OCSPVerify(f.Cert.SignatureAlgorithm, f.SignerKey.Priv.Public(), f.Cert.RawTBSCertificate, f.Cert.Signature) {
+			return fmt.Errorf("ocsp forge (%s): not signed by the recorded signer", by)
+		}
+		if got := OCSPVerify(f.Cert.SignatureAlgorithm, t.PublicKey, f.Cert.RawTBSCertificate, f.Cert.Signature); got != (by == "issuer") {
+			return fmt.Errorf("ocsp forge (%s): verifies under the target key = %v", by, got)
+		}
+	}
 	for _, c := range pool.CAs {
 		if c.Twin >= 0 && (!bytes.Equal(c.Cert.RawSubject, pool.CAs[c.Twin].Cert.RawSubject) || pool.CAs[c.Twin].Key == c.Key) {
 			return fmt.Errorf("ocsp pool: twin CA %d is not same-name/other-key", c.ID)
